@@ -153,6 +153,10 @@ func checkC17(w *World, r *Report) {
 	r.Try(func() { ruleListOrderPreserved(w, r, "R17.10", la) })
 	r.Rule("R17.11", 5, "what is served is what was registered: instance registrations are answered with the descriptor's own instance, constructors with the descriptor's own function")
 	r.Try(func() { ruleFunctionIdentity(w, r, "R17.11") })
+	r.Rule("R17.13", 2, "acceptance of a registration depends on the registry views and on the batch in hand only: every table the duplicate test consults is a view or a set made for this batch")
+	r.Try(func() { ruleDuplicateTestReadsViewsOnly(w, r, "R17.13") })
+	r.Rule("R17.14", 4, "a registration issued through a module reaches the collection: AddModules and NewModule are the plain traversal (every invocation applies every builder, first error returned)")
+	r.Try(func() { reexport(w, r, "R17.14", func(sub *Report) { checkC20(w, sub) }, "R20.1", "R20.2") })
 	r.Rule("R17.12", 1, "what is registered is what is served: a descriptor's Constructor and Instance are the registered value, never the analysis record's (per-type, never invalidated by Remove)")
 	r.Try(func() { ruleDescriptorConstructorSource(w, r, "R17.12") })
 
@@ -927,6 +931,18 @@ func freshCall(info *types.Info, c *ast.CallExpr, idx int, depth int) (bool, str
 	}
 	cal := callee(info, c)
 	if isFunc(cal, "maps", "", "Clone") || isFunc(cal, "slices", "", "Clone") {
+		// a clone is one level deep: the per-key slices of a map of slices stay shared
+		// unless the function goes on to copy them (m[k] = slices.Clone(v) / append(…))
+		if len(c.Args) == 1 {
+			if m, isMap := info.TypeOf(c.Args[0]).Underlying().(*types.Map); isMap {
+				switch m.Elem().Underlying().(type) {
+				case *types.Slice, *types.Map:
+					if !copiesElements(info, c) {
+						return false, "maps.Clone copies the table only: the per-key " + m.Elem().String() + " values are still the collection's (an append to a group writes into the backing array the clone shares)"
+					}
+				}
+			}
+		}
 		return true, cal.Name()
 	}
 	if cal == nil || depth == 0 || theWorld == nil {
@@ -957,6 +973,38 @@ func freshCall(info *types.Info, c *ast.CallExpr, idx int, depth int) (bool, str
 		return true, "built by " + t.Name()
 	}
 	return false, ""
+}
+
+// copiesElements: the function containing the shallow clone c re-assigns the
+// elements with copies (m[k] = slices.Clone(v), m[k] = append(make(…), v...)).
+func copiesElements(info *types.Info, c *ast.CallExpr) bool {
+	if theWorld == nil {
+		return false
+	}
+	fi := theWorld.FuncAt(c.Pos())
+	if fi == nil {
+		return false
+	}
+	found := false
+	ast.Inspect(fi.Decl.Body, func(x ast.Node) bool {
+		as, ok := x.(*ast.AssignStmt)
+		if !ok || len(as.Lhs) != 1 || len(as.Rhs) != 1 {
+			return true
+		}
+		if _, isIx := unparen(as.Lhs[0]).(*ast.IndexExpr); !isIx {
+			return true
+		}
+		if rc, isC := unparen(as.Rhs[0]).(*ast.CallExpr); isC {
+			if cal := callee(info, rc); isFunc(cal, "slices", "", "Clone") || isFunc(cal, "maps", "", "Clone") {
+				found = true
+			}
+			if id, isId := unparen(rc.Fun).(*ast.Ident); isId && id.Name == "append" {
+				found = true
+			}
+		}
+		return true
+	})
+	return found
 }
 
 func freshDepth(info *types.Info, fi *FuncInfo, e ast.Expr, depth int) (bool, string) {
